@@ -55,6 +55,23 @@ EN_TEMPLATES = {
 }
 
 
+import time as _time
+
+
+class Phase:
+    """wall-clock per phase, reported in the evidence"""
+
+    def __init__(self, ctx, name):
+        self.ctx, self.name = ctx, name
+
+    def __enter__(self):
+        self.t = _time.time()
+
+    def __exit__(self, *a):
+        self.ctx.extra.setdefault('timing_s', {})[self.name] = round(
+            self.ctx.extra.get('timing_s', {}).get(self.name, 0) + _time.time() - self.t, 1)
+
+
 def sha(s):
     return hashlib.sha1(s.encode('utf-8')).hexdigest()[:12]
 
@@ -144,6 +161,67 @@ def gen_queries(r, rec, culture, ents, words, n):
     return out
 
 
+
+# ------------------------------------------------------------------ systematic modifier family (seed-independent)
+
+MOD_CANDIDATES = {
+    'before': ['before', 'prior to', 'no later than', 'earlier than', 'sooner than', 'in advance of', 'by', 'until',
+               'till', 'til', 'untill', 'as late as', 'on or before', 'ending with', 'ending on', 'before or on', '<', '<='],
+    'after': ['after', 'later than', 'on or after', 'after on', 'greater than', 'year greater than', 'after or on', '>'],
+    'since': ['since', 'starting', 'starting from', 'starting on', 'starting with', 'beginning', 'beginning from',
+              'beginning with', 'as early as', 'any time from', 'after or equal to', 'from', '>='],
+    'equal': ['equal to', 'equals', 'equal', '='],
+}
+APPROX = ['', 'around', 'about', 'approximately', 'circa', 'roughly', 'close to', 'near']
+MOD_EXPRS = ['2010', '3pm', '11pm', '5 march', '5/11/2019', 'monday', 'next week', 'yesterday', '3 days ago']
+MOD_SUFFIXES = ['or later', 'or earlier', 'or after', 'or before', 'or above', 'and later', 'or sooner']
+MOD_CARRIERS = ['%s i lived there', 'we met %s', 'we met %s and left']
+
+
+def modifier_words(config):
+    """The modifier phrases the English merged extractor's configuration accepts right now: every candidate that
+    its before/after/since/equal regex matches from its first character to its last (candidates the configuration
+    does not know are dropped, so the family follows the working tree's resources)."""
+    import regex
+    out = []
+    for kind, attr in (('before', 'before_regex'), ('after', 'after_regex'), ('since', 'since_regex'),
+                       ('equal', 'equal_regex')):
+        pat = getattr(config, attr, None)
+        for w in MOD_CANDIDATES[kind]:
+            ok = True
+            if pat is not None:
+                m = regex.search(pat, w + ' ')
+                ok = bool(m) and m.start() == 0 and len(m.group().strip()) == len(w)
+            if ok:
+                out.append((kind, w))
+    return out
+
+
+def modifier_family():
+    """[(family, query)] for en-us DateTimeModel: modifier x approximation x expression x position, and the suffix
+    modifiers; two modifiers of different kinds in one entity is the shape BaseMergedParser.parse's push/pop must
+    restore exactly once each."""
+    from . import recog
+    model = recog.get_model('DateTime', 'DateTimeModel', 'en-us')
+    words = modifier_words(model.extractor.config)
+    out = []
+    for kind, w in words + [('none', '')]:
+        for ap in APPROX:
+            if not w and not ap:
+                continue
+            for ex in MOD_EXPRS:
+                core = ' '.join(x for x in (w, ap, ex) if x)
+                out.append(('mod-' + kind, MOD_CARRIERS[0] % core))
+                out.append(('mod-' + kind, MOD_CARRIERS[1] % core))
+    for ex in MOD_EXPRS:
+        for sfx in MOD_SUFFIXES:
+            for ap in ('', 'around'):
+                core = ' '.join(x for x in (ap, ex, sfx) if x)
+                out.append(('mod-suffix', MOD_CARRIERS[0] % core))
+                out.append(('mod-suffix', MOD_CARRIERS[2] % core))
+    return out, len(words)
+
+
 def build_tasks(ctx, which_units=False):
     from . import recog
     common.setup_repo_imports()
@@ -173,10 +251,17 @@ def build_tasks(ctx, which_units=False):
         # recognisers whose failures are recorded keyed by input get a seed-independent query set (a closed
         # list of inputs); VERIF_SEED drives the fast recognisers, the unit sample and the preprocess strings
         r = common.rng_for(0, 'span-gen', p[0], p[1], p[2]) if p[0] in ('DateTime', 'NumberWithUnit') \
-            else ctx.rng('gen', p[0], p[1], p[2])
+            else common.rng_for(ctx.seed, 'span', 'gen', p[0], p[1], p[2])
         for family, q in gen_queries(r, p[0], p[2], ents, words, n):
             tasks.append((p[0], p[1], p[2], q, ref0 if p[0] == 'DateTime' else None))
             fam.append('gen-' + family)
+    # systematic modifier family (English merged extractor / parser)
+    if ('DateTime', 'DateTimeModel', 'en-us') in pairset:
+        mods, nwords = modifier_family()
+        ctx.extra['modifier_family'] = {'modifier_phrases_accepted_by_config': nwords, 'queries': len(mods)}
+        for family, q in mods:
+            tasks.append(('DateTime', 'DateTimeModel', 'en-us', q, ref0))
+            fam.append(family)
     # boundary queries for every pair
     for p in pairs:
         for q in ['', ' ', 'İ', 'İ 42', '42 İ 17', 'a', '0']:
@@ -283,6 +368,17 @@ def whatif(which, tasks):
     """Re-run `tasks` in fresh processes with one proposed repair monkey-patched in. -> list of span lists."""
     if not tasks:
         return []
+    key = spanpipe.cache_key('whatif-' + which, [[t[0], t[1], t[2], t[3], str(t[4])] for t in tasks] + [WHATIF_CODE],
+                             spanpipe)
+    hit = spanpipe.cache_get(key)
+    if hit is not None and len(hit) == len(tasks):
+        return hit
+    out = _whatif(which, tasks)
+    spanpipe.cache_put(key, out)
+    return out
+
+
+def _whatif(which, tasks):
     if len(tasks) > 24:
         from concurrent.futures import ThreadPoolExecutor
         order = sorted(range(len(tasks)), key=lambda i: (tasks[i][:3], i))
@@ -290,7 +386,7 @@ def whatif(which, tasks):
         parts = [order[j::k] for j in range(k)]
         parts = [p for p in parts if p]
         with ThreadPoolExecutor(len(parts)) as ex:
-            outs = list(ex.map(lambda p: whatif(which, [tasks[i] for i in p]), parts))
+            outs = list(ex.map(lambda p: _whatif(which, [tasks[i] for i in p]), parts))
         res = [None] * len(tasks)
         for p, o in zip(parts, outs):
             for i, x in zip(p, o):
@@ -309,8 +405,12 @@ def whatif(which, tasks):
 # ------------------------------------------------------------------ pipeline level
 
 def pipeline(ctx, prop):
-    tasks, fam, pairs = build_tasks(ctx)
-    res = spanpipe.run(tasks, nproc=16, timeout=10.0)
+    with Phase(ctx, 'build_tasks'):
+        tasks, fam, pairs = build_tasks(ctx)
+    with Phase(ctx, 'pipeline_run'):
+        ctx._span_unit = spanunit.UnitRun(unit_tasks(ctx, tasks), nproc=16, timeout=10.0)   # runs meanwhile
+        res = spanpipe.run(tasks, nproc=16, timeout=10.0)
+        ctx.extra['pipeline_scheduling'] = dict(spanpipe.LAST_STATS)
     stats = {'timeout': 0, 'error': 0, 'none_results': 0, 'entities': 0}
     per_pair = {}
     fails = []          # (task, family, detail)
@@ -354,7 +454,8 @@ def pipeline(ctx, prop):
                 fails.append((t, f, [(spans[i], spans[j]) for i, j in ov], spans))
     # the same predicates evaluated by the Lean definitions the theorems are about
     if lean_lines:
-        ans = common.driver(lean_lines)
+        with Phase(ctx, 'lean_predicates'):
+            ans = common.driver(lean_lines)
         ctx.count('lean-predicate', len(lean_lines))
         for a, (exp, t, what) in zip(ans, lean_expect):
             if a != exp:
@@ -367,7 +468,8 @@ def pipeline(ctx, prop):
                              'none_results_skipped': stats['none_results'],
                              'min_queries_per_pair': min(per_pair.values()) if per_pair else 0,
                              'failing_queries': len(fails)}
-    classify(ctx, prop, fails)
+    with Phase(ctx, 'classify_whatif'):
+        classify(ctx, prop, fails)
     return tasks
 
 
@@ -393,11 +495,19 @@ def classify(ctx, prop, fails):
         order = [('negAnchor', 'neg-term-unanchored', lambda t: True),
                  ('modRstrip', 'modifier-index-leading-blank', lambda t: t[0] == 'DateTime' and t[3][:1].isspace()),
                  ('lowerPerChar', 'lower-expands-U+0130', lambda t: any(c.lower() != c and len(c.lower()) != 1 for c in t[3]))]
+    # the what-if runs are independent of each other: start them together, apply them in priority order
+    from concurrent.futures import ThreadPoolExecutor
+    with ThreadPoolExecutor(len(order)) as ex:
+        pre = {which: ex.submit(lambda w=which, a=applies: (lambda c: (c, whatif(w, [x[0] for x in c])))(
+            [x for x in fails if a(x[0])])) for which, sig, applies in order}
+        pre = {k: v.result() for k, v in pre.items()}
     for which, sig, applies in order:
-        cand = [x for x in remaining if applies(x[0])]
+        allc, allout = pre[which]
+        by_id = {id(x): o for x, o in zip(allc, allout)}
+        cand = [x for x in remaining if id(x) in by_id]
         if not cand:
             continue
-        out = whatif(which, [x[0] for x in cand])
+        out = [by_id[id(x)] for x in cand]
         fixed = set()
         for x, spans in zip(cand, out):
             if not still_fails(prop, x[0][3], spans):
@@ -448,7 +558,7 @@ def unit_tasks(ctx, tasks):
         lim = UNIT_LIMITS.get(rec, (0, 0))[1 if ctx.thorough else 0]
         if lim <= 0:
             continue
-        r = ctx.rng('unit', rec)
+        r = common.rng_for(ctx.seed, 'span', 'unit', rec)
         if len(ts) > lim:
             ts = r.sample(ts, lim)
         out.extend(ts)
@@ -456,8 +566,10 @@ def unit_tasks(ctx, tasks):
 
 
 def unit_level(ctx, prop, tasks):
-    ops, dropped = spanunit.unit_ops(unit_tasks(ctx, tasks), nproc=16, timeout=10.0)
-    ctx.extra['unit'] = {'dropped_timeouts': dropped}
+    with Phase(ctx, 'unit_run_tail'):
+        run = getattr(ctx, '_span_unit', None) or spanunit.UnitRun(unit_tasks(ctx, tasks), nproc=16, timeout=10.0)
+        ops, dropped, cache = run.get()
+    ctx.extra['unit'] = {'dropped_timeouts': dropped, 'cache': cache}
     hyp = {}
     lines, live = [], []
     for o in ops:
@@ -470,7 +582,8 @@ def unit_level(ctx, prop, tasks):
             continue
         lines.append(o['op'])
         live.append(o)
-    ans = common.driver(lines) if lines else []
+    with Phase(ctx, 'unit_driver'):
+        ans = common.driver(lines) if lines else []
     for o, a in zip(live, ans):
         k = o['kind']
         ctx.count('unit:' + k)
@@ -565,7 +678,7 @@ def preprocess_unit(ctx, prop):
         for variant in ('full', 'keep'):
             lines.append('sp.pre\t%s\t%s\t%s\t%s' % (variant, '1' if cs else '0', spanunit.fmt_items(ms), cps(q)))
         meta.append((cs, q, impl))
-    ans = common.driver(lines)
+    ans = pdriver(lines)
     ctx.count('preprocess:code-point-blocks', n_blocks)
     ctx.count('preprocess:seeded', len(cases) - n_blocks)
     follows_full = follows_keep = 0
@@ -604,11 +717,28 @@ def preprocess_unit(ctx, prop):
                    property_fails=True)
 
 
+_PAIRS = []
+
+
+def pdriver(lines, k=8):
+    """the Lean driver over `k` processes (answers in order)"""
+    if len(lines) < 2000:
+        return common.driver(lines)
+    from concurrent.futures import ThreadPoolExecutor
+    step = (len(lines) + k - 1) // k
+    parts = [lines[i:i + step] for i in range(0, len(lines), step)]
+    with ThreadPoolExecutor(len(parts)) as ex:
+        outs = list(ex.map(common.driver, parts))
+    return [a for o in outs for a in o]
+
+
 def recode_only(QP, q):
     """the string `to_lower_term_sensitive` receives: the recodes applied, nothing else (from the working
     tree's own replace chain, read by the translator)."""
-    from translate.preprocess import replace_pairs
-    for a, b in replace_pairs():
+    if not _PAIRS:
+        from translate.preprocess import replace_pairs
+        _PAIRS.extend(replace_pairs())
+    for a, b in _PAIRS:
         q = q.replace(a, b)
     return q
 
